@@ -18,6 +18,29 @@ type RefDB struct {
 	Idx     map[string]*RefIndex
 	Edges   map[string]map[string][]*RefEdge // "index\x00source" -> relation -> versions in creation order
 	Evolved []string                         // ids created by VEvolve (to extend the universe)
+	// ImplOK, when set by the driver before Step, is what the implementation answered to the
+	// operation. The model consults it in exactly one situation, where both answers are right:
+	// an index whose vectors have all been deleted may or may not remember their dimension
+	// (it does while the process lives and through a snapshot; a log compaction forgets it), so
+	// a vector of another length - or one without a length - may be refused or accepted. What
+	// is accepted must read back as given either way.
+	ImplOK *bool
+}
+
+// emptied decides the dimension question for an index without live vectors that had some
+// before: n is the length of the first vector of the operation that has one (0: none has).
+// It returns whether the operation passes and the dimension to use.
+func (r *RefDB) emptied(ix *RefIndex, n int) (bool, int) {
+	if n == ix.Dim {
+		return true, n // same dimension as before: nothing to remember or to forget
+	}
+	if r.ImplOK != nil && !*r.ImplOK {
+		return false, 0
+	}
+	if n == 0 {
+		return true, ix.Dim
+	}
+	return true, n
 }
 
 type RefVec struct {
@@ -220,12 +243,20 @@ func (r *RefDB) Step(o Op, now int64) (ok bool) {
 			return false
 		}
 		v := o.V
-		if len(v) == 0 {
-			if ix.dim() == 0 {
+		d := ix.dim()
+		if d == 0 && ix.Dim != 0 {
+			ok, dd := r.emptied(ix, len(v))
+			if !ok {
 				return false
 			}
-			v = make([]float32, ix.dim())
-		} else if ix.dim() != 0 && len(v) != ix.dim() {
+			d = dd
+		}
+		if len(v) == 0 {
+			if d == 0 {
+				return false
+			}
+			v = make([]float32, d)
+		} else if d != 0 && len(v) != d {
 			return false
 		}
 		meta := cloneMeta(o.M)
@@ -265,6 +296,13 @@ func (r *RefDB) Step(o Op, now int64) (ok bool) {
 					dim = len(it.V)
 					break
 				}
+			}
+			if ix.Dim != 0 && len(o.Items) > 0 {
+				ok, dd := r.emptied(ix, dim)
+				if !ok {
+					return false
+				}
+				dim = dd
 			}
 		}
 		seen := map[string]bool{}
@@ -539,6 +577,7 @@ func (ix *RefIndex) dim() int {
 
 func (r *RefDB) addVec(ix *RefIndex, id string, v []float32, meta map[string]any) {
 	ix.Vecs[id] = &RefVec{V: storedForm(ix.Cfg, v), Meta: meta}
+	ix.Dim = len(v)
 }
 
 func (r *RefDB) autoLink(index string, ix *RefIndex, src string, meta map[string]any, now int64) {
